@@ -122,6 +122,7 @@ func init() {
 				r.Check(okW, k, "asset weight on the validator = rewardWeight x validator tokens / asset total", "RewardWeight.Mul(val.TotalTokensWithAsset(asset)).QuoInt(asset.TotalTokens)", "the per-asset staked reward weight is not rewardWeight x (asset tokens on the validator / asset total)", e.Pos(fn.Pos()))
 				// total is the sum of the weights; normalisation divides by that sum
 				okN, okD := false, false
+				var sumPhi *ssa.Phi // the normalising sum, identified by its role: the divisor of the normalised weight
 				for _, st := range StoresToField(fn, "types.RewardHistory", "Index") {
 					v := fa.Term(st.Val)
 					if v.IsCall("math.LegacyDec.Add") {
@@ -132,8 +133,9 @@ func init() {
 						v.Args[0].Args[0].IsCall("math.LegacyNewDecFromInt") && strings.HasSuffix(v.Args[0].Args[0].Args[0].String(), ".Amount") {
 						okD = true
 						nw := v.Args[0].Args[1]
-						if nw.IsCall("math.LegacyDec.Quo") && nw.Args[0].Op == "index" && nw.Args[1].Op == "phi" && strings.HasPrefix(nw.Args[1].Name, "totalStakedRewardWeight") {
+						if nw.IsCall("math.LegacyDec.Quo") && nw.Args[0].Op == "index" && nw.Args[1].Op == "phi" {
 							okN = true
+							sumPhi, _ = nw.Args[1].Instr.(*ssa.Phi)
 						}
 					}
 				}
@@ -143,7 +145,7 @@ func init() {
 				okSum := false
 				for _, b := range fn.Blocks {
 					for _, in := range b.Instrs {
-						if phi, ok := in.(*ssa.Phi); ok && phi.Comment == "totalStakedRewardWeight" {
+						if phi, ok := in.(*ssa.Phi); ok && sumPhi != nil && (phi == sumPhi || phiFeeds(phi, sumPhi)) {
 							// edges of the accumulator phi, looking through the merge phi that a `continue` in an
 							// index loop introduces at the post block
 							var edges []ssa.Value
@@ -269,4 +271,26 @@ func init() {
 			}
 			r.Check(n >= 3, "-", "multiplications of a quotient found", fmt.Sprintf("%d", n), fmt.Sprintf("only %d found: the scan is not seeing the value formulas", n))
 		}})
+}
+
+// phiFeeds: phi flows into target through phi edges only (loop-header and merge phis of one accumulator variable).
+func phiFeeds(phi, target *ssa.Phi) bool {
+	seen := map[*ssa.Phi]bool{}
+	var visit func(p *ssa.Phi) bool
+	visit = func(p *ssa.Phi) bool {
+		if p == phi {
+			return true
+		}
+		if seen[p] {
+			return false
+		}
+		seen[p] = true
+		for _, ed := range p.Edges {
+			if q, ok := ed.(*ssa.Phi); ok && visit(q) {
+				return true
+			}
+		}
+		return false
+	}
+	return visit(target)
 }
